@@ -999,6 +999,63 @@ fn register_builtins(g: &mut Globals) {
             });
         }
     }
+    // the RustCrypto interface that `renetcode/src/crypto.rs` itself is written against (group NcCrypto translates that
+    // file): `chacha20poly1305::{ChaCha20Poly1305, XChaCha20Poly1305}` are model types (the cipher = its key) whose
+    // detached in-place operations are defined from the abstract `RustSem.Aead` in `Base/RustSemCrypto.lean`;
+    // `Key` / `Tag` / `Nonce` / `XNonce` (`GenericArray<u8, N>`) are byte arrays, their constructors check the length
+    {
+        let cerr = Ty::Opaque("RustSem.CryptoError".into());
+        let bytes_slice = Ty::List(Box::new(Ty::u8()), ListKind::Slice);
+        let arr = Ty::List(Box::new(Ty::u8()), ListKind::Array);
+        for n in ["ChaCha20Poly1305", "XChaCha20Poly1305", "Key", "Tag", "Nonce", "XNonce"] {
+            g.structs.insert(n.into(), StructInfo { group: String::new(), ns: BUILTIN_NS.to_string(), name: n.into(), fields: vec![], view: false, ignored: vec![] });
+        }
+        let mk = |st: &str, name: &str, mode: SelfMode, params: Vec<(&str, Ty)>, mut_params: Vec<&str>, err_state: bool, ret: Ty| FnInfo {
+            group: String::new(),
+            ns: BUILTIN_NS.to_string(),
+            self_ty: Some(st.to_string()),
+            name: name.to_string(),
+            self_mode: mode,
+            params: params.into_iter().map(|(a, b)| (a.to_string(), b)).collect(),
+            mut_params: mut_params.into_iter().map(|x| x.to_string()).collect(),
+            opt_mut_params: vec![],
+            field_clash: false,
+            ref_ret: None,
+            const_params: vec![],
+            err_state,
+            ret,
+            order: 0,
+        };
+        let mut entries: Vec<FnInfo> = Vec::new();
+        for cipher in ["ChaCha20Poly1305", "XChaCha20Poly1305"] {
+            entries.push(mk(cipher, "new", SelfMode::None, vec![("key", arr.clone())], vec![], false, Ty::Named(cipher.to_string())));
+            entries.push(mk(
+                cipher,
+                "encrypt_in_place_detached",
+                SelfMode::Ref,
+                vec![("nonce", arr.clone()), ("associated_data", bytes_slice.clone()), ("buffer", bytes_slice.clone())],
+                vec!["buffer"],
+                true,
+                Ty::Res(Box::new(arr.clone()), Box::new(cerr.clone())),
+            ));
+            entries.push(mk(
+                cipher,
+                "decrypt_in_place_detached",
+                SelfMode::Ref,
+                vec![("nonce", arr.clone()), ("associated_data", bytes_slice.clone()), ("buffer", bytes_slice.clone()), ("tag", arr.clone())],
+                vec!["buffer"],
+                true,
+                Ty::Res(Box::new(Ty::Unit), Box::new(cerr.clone())),
+            ));
+        }
+        entries.push(mk("Key", "from_slice", SelfMode::None, vec![("slice", bytes_slice.clone())], vec![], false, arr.clone()));
+        entries.push(mk("Tag", "from_slice", SelfMode::None, vec![("slice", bytes_slice.clone())], vec![], false, arr.clone()));
+        entries.push(mk("XNonce", "from_slice", SelfMode::None, vec![("slice", bytes_slice.clone())], vec![], false, arr.clone()));
+        entries.push(mk("Nonce", "from", SelfMode::None, vec![("arr", arr.clone())], vec![], false, arr.clone()));
+        for e in entries {
+            g.fns.entry((e.self_ty.clone(), e.name.clone())).or_default().push(e);
+        }
+    }
     // `std::net::UdpSocket` (semantic model): `recv_from` pops the next event of the inbox script into the caller's buffer,
     // `send_to` appends to the outbox log, `set_nonblocking` does nothing; `pending` (model only: fuel of receive loops)
     {
